@@ -569,7 +569,7 @@ PROPS["C13"]["harnesses"] += [H("c13::bundled_managers", bounds="all 65536 ids, 
 # CBMC out of 24 GB for a single call)
 SLOTIDX = H("smt::slot_index", required=False, kind="smt", smt="slotidx", replay_module="c17",
             bounds="slot count 1..=65536 (usize, 64-bit wrapping arithmetic), every u8 fragment id; the loop-free prefix of "
-                   "SimpleGseMemory::{new, new_frag, take_frag, save_frag} up to the slot access, encoded from the nightly MIR dump of /repo; "
+                   "SimpleGseMemory::{new, new_frag, take_frag, save_frag} up to the slot access, encoded from the nightly MIR dump of /repo (helpers of the memory module inlined path by path); queries: no panic, same slot in all three operations, different ids below the slot count never share a slot; "
                    "z3 4.8.12 and cvc5 1.0 must both answer unsat",
             stubs=["vec::from_elem(x, n).into_boxed_slice() has length n (std model of the MIR->SMT member)",
                    "integer fields of SimpleGseMemory keep the value `new` stored (checked syntactically on the MIR: no later store)"],
